@@ -131,7 +131,7 @@ def shards(tier: str) -> List[Dict[str, Any]]:
             combos = [c for c in combos if c in ([0, 0, 0], [0, 2, 4], [4, 4, 0], [2, 0, 4], [4, 2, 2], [0, 4, 4])]
         for ops in combos:
             out.append({"name": f"facets:{name},ops=" + " ".join(c15.OP_NAMES[o] for o in ops[:k]),
-                        "params": {"template": name, "slots": k, "ops": ops, "lo": 0, "hi": 3 if tier == "quick" else 6,
+                        "params": {"template": name, "slots": k, "ops": ops, "lo": 0, "hi": 3 if tier == "quick" else 5,
                                    "fixed_orders": False},
                         "budget_s": 150 if tier == "quick" else 1500, "per_path_timeout": 60})
     return out
@@ -264,7 +264,7 @@ def describe(tier: str, direction: Optional[str] = None) -> Dict[str, Any]:
                   "_translate_pattern output is read by a strict XML Schema regex reader and compared with CPython's reading of the original by "
                   "z3 for ALL strings of XML characters without line breaks up to length 4 (thorough 7): "
                   + ("L(pattern) subset of L(xsd)" if direction == "never-rejects-valid" else "L(xsd) subset of L(pattern)") +
-                  ". Facets: the C15 templates with comparison constants in [0, 3] (thorough [0, 6]), both operand orders: minLength / maxLength / minOccurs / maxOccurs "
+                  ". Facets: the C15 templates with comparison constants in [0, 3] (thorough [0, 5]), both operand orders: minLength / maxLength / minOccurs / maxOccurs "
                   "read from the REAL generated XSD vs. the conjunction of the invariants for a symbolic length",
         "outside": "validity of the XSD as a whole and validation of whole documents (needs an XSD validator / an XML parser on a symbolic "
                    "document: not encodable, see DESIGN.md); unknown / misplaced / missing elements (C14's last clause); \\d \\w \\s \\p{..}",
